@@ -58,6 +58,8 @@ def fold_val(d, n, scal, depth, leaf_it):
             return ["iv", "i"]
         if k < 80:
             return leaf_it
+        if k < 88:
+            return ["ulit", d.randint(0, 12), d.randint(4, 6)]       # an unsigned operand wider than every field
         return L(d.randint(0, 4))
     op = d.choice(["+", "-", "&", "|", "^", "|", "&", "<<", ">>", "*"])
     l = fold_val(d, n, scal, depth - 1, leaf_it)
@@ -72,6 +74,15 @@ def fold_val(d, n, scal, depth, leaf_it):
 
 def fold_cond(d, n, scal, depth, leaf_it):
     r = d.randint(0, 99)
+    if depth > 0 and r < 14:
+        # a condition without any random operand (always folded): constants of both signednesses, the index, and an
+        # unsigned literal that is wider than the fields
+        consts = [["f", x] for x in scal if x != "s0"] + [["iv", "i"]]
+        a = d.choice(consts)
+        if d.chance(40):
+            a = ["bin", d.choice(["+", "-", "^"]), a, d.choice(consts)]
+        b = ["ulit", d.randint(0, 12), d.randint(4, 6)] if d.chance(60) else d.choice(consts)
+        return ["bin", d.choice(["==", "!=", "<", "<=", ">", ">="]), a, b]
     if depth <= 0 or r < 70:
         l = fold_val(d, n, scal, 2, leaf_it)
         if l[0] == "lit":
@@ -196,8 +207,10 @@ def _cases(d, p_fold=12, no_randsz=False):
                 l["size"] = d.randint(1, 3)
                 l["init"] = [0] * l["size"]
     fields = [{"name": "s0", "kind": "bit", "w": 3, "signed": False, "rand": True, "init": 0},
-              {"name": "n0", "kind": "bit", "w": 3, "signed": False, "rand": False, "init": d.randint(0, 4)}]
-    stmts = gen_stmts(d, lists, ["s0", "n0"], p_fold)
+              {"name": "n0", "kind": "bit", "w": 3, "signed": False, "rand": False, "init": d.randint(0, 4)},
+              # a SIGNED constant (negative in half of the cases): folded conditions must extend it the way the solver does
+              {"name": "m0", "kind": "int", "w": 3, "signed": True, "rand": False, "init": d.randint(-4, 3)}]
+    stmts = gen_stmts(d, lists, ["s0", "n0", "m0"], p_fold)
     ops = [["call", d.seed()]]
     for _ in range(d.randint(0, 5)):
         r = d.randint(0, 99)
@@ -378,7 +391,8 @@ def run_case(case):
     try:
         ns = render.build(prog)
         obj = ns["T"]()
-        obj.n0 = cls["fields"][1]["init"]
+        for f_ in cls["fields"][1:]:
+            setattr(obj, f_["name"], f_["init"])
         cur = {}
         for l in lists:
             lo = getattr(obj, l["name"])
@@ -390,6 +404,7 @@ def run_case(case):
         reset_library()
         return [V("library_exception", "construction: " + exc_sig(e), case, repr(e)[:300])], info
     n0 = cls["fields"][1]["init"]
+    consts = {f_["name"]: f_["init"] for f_ in cls["fields"][1:]}
 
     def lib_list(name):
         lo = getattr(obj, name)
@@ -434,7 +449,7 @@ def run_case(case):
         if any('"prod"' in cjson(s_) for s_ in stmts) and any(l["mode"] != "randsz" and not cur[l["name"]] for l in lists
                                                               if ('["prod","%s"]' % l["name"]) in cjson(stmts)):
             return [], info      # the product of an empty list is not specified (the library says 0): not judged
-        sols = enumerate_lists(types, lists, cur, cls["fields"], {"n0": n0, "s0": 0}, stmts)
+        sols = enumerate_lists(types, lists, cur, cls["fields"], dict(consts, s0=0), stmts)
         if sols is None:
             return [], info
         st, exc = flat.do_call(ns, obj, "randomize", None, op[1])
@@ -479,12 +494,13 @@ def run_case(case):
             if n >= 2:
                 info["len2"] = True
         s0 = int(obj.s0)
-        if int(obj.n0) != n0:
-            return [V("nonrandom_changed", "n0", case, where)], info
+        for cn, cv in consts.items():
+            if int(getattr(obj, cn)) != cv:
+                return [V("nonrandom_changed", cn, case, where)], info
         if not sols:
             return [V("returned_on_unsat", "randomize", case, where + " returned s0=%d lists=%s" % (s0, state))], info
         if (s0, tuple(state)) not in set(sols):
-            env = {"s0": s0, "n0": n0}
+            env = dict(consts, s0=s0)
             for l, elems in zip(lists, state):
                 env["#" + l["name"]] = len(elems)
                 for i, v in enumerate(elems):
@@ -519,6 +535,9 @@ class T(object):
         self.l = vsc.%(ctor)s(E(-1))
         for i in range(n):
             self.l.append(E(i))
+        self.m = vsc.randsz_list_t(E(-1))
+        for i in range(%(n2)d):
+            self.m.append(E(50 + i))
     @vsc.constraint
     def c0(self):
 %(size_stmt)s        with vsc.foreach(self.l, idx=True) as i:
@@ -551,6 +570,11 @@ def objlist_cases(d):
             ops.append(["setk", d.randint(0, 3)])
     ops.append(["call", d.seed()])
     case["ops"] = ops
+    # a second, random-size list of objects whose size range may admit more than it holds (only sizes up to the number
+    # of objects it holds are possible); its elements are not constrained
+    n2 = d.randint(0, 3)
+    lo2 = d.randint(0, max(0, n2 - 1))
+    case["m"] = {"n": n2, "size": [lo2, d.randint(max(lo2, n2), 6)]} if d.chance(60) else {"n": 0, "size": [0, 0]}
     return case
 
 
@@ -558,7 +582,9 @@ def objlist_source(case):
     sz = ""
     if case.get("size"):
         sz = "        self.l.size.inside(vsc.rangelist(vsc.rng(%d, %d)))\n" % tuple(case["size"])
-    return OBJ_SRC % {"ctor": case["ctor"], "size_stmt": sz, "op": case["op"]}
+    m = case.get("m") or {"n": 0, "size": [0, 0]}
+    sz += "        self.m.size.inside(vsc.rangelist(vsc.rng(%d, %d)))\n" % tuple(m["size"])
+    return OBJ_SRC % {"ctor": case["ctor"], "size_stmt": sz, "op": case["op"], "n2": m["n"]}
 
 
 def run_objlist(case):
@@ -579,6 +605,7 @@ def run_objlist(case):
         top = ns["T"](case["n"])
         top.k = case["k"]
         cur = list(top.l)
+        curm = list(top.m)
     except Exception as e:
         reset_library()
         return [Vo("library_exception", "construction: " + exc_sig(e), repr(e)[:300])], info
@@ -632,6 +659,9 @@ def run_objlist(case):
             sizes = [s_ for s_ in range(case["size"][0], case["size"][1] + 1) if s_ <= len(cur) and all(feasible(i, cur[i]) for i in range(s_))]
         else:
             sizes = [len(cur)] if all(feasible(i, cur[i]) for i in range(len(cur))) else []
+        mspec_ = (case.get("m") or {"size": [0, 0]})["size"]
+        if mspec_[0] > len(curm):
+            sizes = []
         before = [int(e.a) for e in cur]
         st, exc = flat.do_call(ns, top, "randomize", None, o_[1])
         if st == "exc":
@@ -644,6 +674,18 @@ def run_objlist(case):
                 return [], info          # (contents of a random-size list after a failed call are not specified)
             continue
         info["returned"] += 1
+        # the second list: any size of its range that it can hold; first objects kept
+        mspec = (case.get("m") or {"size": [0, 0]})["size"]
+        try:
+            gm = list(top.m)
+            ok_m = len(top.m) == top.m.size == len(gm) and all(top.m[i] is gm[i] for i in range(len(gm)))
+        except Exception as e:
+            return [Vo("length_disagree", "len(), size, indexing and iteration of a random-size object list disagree",
+                       where + ": list m: size=%s, iteration raised %r" % (top.m.size, e))], info
+        if not ok_m or not (mspec[0] <= len(gm) <= min(mspec[1], len(curm))) or any(a is not b for a, b in zip(gm, curm)):
+            return [Vo("length_disagree", "len(), size, indexing and iteration of a random-size object list disagree", 
+                       where + ": list m exposes %d objects (size attribute %s), held %d, size range %s" % (len(gm), top.m.size, len(curm), mspec))], info
+        curm = gm
         got = list(top.l)
         n = len(top.l)
         if not (n == top.l.size == len(got)) or any(top.l[i] is not got[i] for i in range(n)):
